@@ -4,6 +4,8 @@ pub mod engine;
 pub mod frontend;
 pub mod logging;
 pub mod shared;
+#[cfg(feature = "sim-hooks")]
+pub mod sim_hooks;
 
 #[cfg(test)]
 #[path = "../tests/helpers/mod.rs"]
